@@ -38,12 +38,12 @@ OpValid(o) ==
                            /\ ~(o.a[2] = 0 /\ o.a[3] = sg.n[o.a[1]])
                            /\ \E c \in cells : SliceKeeps(c, o.a[1], o.a[2], o.a[3])
       [] o.op = "trim" -> /\ ~IsMul /\ o.a[1] \in Dirs /\ o.a[2] \in 1..(NAtoms(o.a[1]) - 1) /\ o.a[3] \in {1, -1}
-                          /\ o.a[4] \in 0..L
+                          /\ o.a[4] \in 0..3
                           /\ TrimCells(cells, o.a[1], o.a[2], o.a[3], o.a[4]) # {}
                           /\ \A z \in cells : TrimOK(z, o.a[1], o.a[2], o.a[4])
       [] o.op = "trim2" -> /\ ~IsMul /\ Dim = 2 /\ ~base.tri /\ Len(o.a) = 6
                            /\ o.a[1] \in 1..(NAtoms(1) - 1) /\ o.a[3] \in 1..(NAtoms(2) - 1)
-                           /\ o.a[2] \in {1, -1} /\ o.a[4] \in {1, -1} /\ o.a[5] \in 0..L /\ o.a[6] \in {0, 1}
+                           /\ o.a[2] \in {1, -1} /\ o.a[4] \in {1, -1} /\ o.a[5] \in 0..3 /\ o.a[6] \in {0, 1}
                            /\ \A z \in cells : Trim2OK(z, o.a)
                            /\ Trim2Cells(cells, o.a) # {} /\ Trim2Comp(cells, o.a) # {}
       [] OTHER -> FALSE
